@@ -304,26 +304,33 @@ def native_sequence(seed=0, linear=False, k_edit=3.0, container="set", assumptio
             d = mat_diff(f"prediction {step} (dt={float(dtv)}): state", r.state.data, o["state"]) or mat_diff(f"prediction {step} (dt={float(dtv)}): covariance", r.covariance.data, o["covariance"])
             if d:
                 problems.append(d)
-        # CHAINED predictions: each output is fed back in; earlier outputs and inputs must stay what they were
+        # CHAINED predictions: each output (state AND covariance) is fed back in; earlier outputs and inputs must stay what they were
         pt = dict(base)
         state, ctl = scenarios.named_state(ekf, sc, pt), scenarios.named_control(ekf, sc, pt)
         cov = ekf.Covariance.from_data(Pnp.copy())
         Pk = P
         kept = []
         for step in range(3):
-            cov_in = cov.data.copy()
+            cov_in, state_in = cov.data.copy(), state.data.copy()
             r = ekf.process_model(float(pt[sc.dt]), state, cov, ctl)
             o = oracle(sc, pt, Pk)
-            d = mat_diff(f"prediction chain step {step}: covariance", r.covariance.data, o["covariance"], tol=1e-7)
+            d = mat_diff(f"prediction chain step {step}: covariance", r.covariance.data, o["covariance"], tol=1e-7) or mat_diff(f"prediction chain step {step}: state", r.state.data, o["state"], tol=1e-7)
             if d:
                 problems.append(d)
             if not np.array_equal(cov.data, cov_in):
                 problems.append(f"prediction chain step {step}: the call modified the covariance it was given")
-            for j, (obj, snap) in enumerate(kept):
+            if not np.array_equal(state.data, state_in):
+                problems.append(f"prediction chain step {step}: the call modified the state it was given")
+            for j, (what, obj, snap) in enumerate(kept):
                 if not np.array_equal(obj.data, snap):
-                    problems.append(f"prediction chain step {step}: the covariance returned by step {j} changed afterwards")
-            kept.append((r.covariance, r.covariance.data.copy()))
-            cov, Pk = r.covariance, o["covariance"]
+                    problems.append(f"prediction chain step {step}: the {what} returned by step {j // 2} changed afterwards")
+            kept.append(("covariance", r.covariance, r.covariance.data.copy()))
+            kept.append(("state", r.state, r.state.data.copy()))
+            cov, Pk, state = r.covariance, o["covariance"], r.state
+            pt = dict(pt)
+            for idx, sym in enumerate(AS):
+                v = sympy.nsimplify(o["state"][idx, 0], rational=True)
+                pt[sym] = Fraction(int(v.p), int(v.q))
             if problems:
                 break
         rng = random.Random(seed + 9)
